@@ -14,6 +14,17 @@ Theorem C20_table_race_free : races site_names site_funcs = nil.
 Proof. vm_compute. reflexivity. Qed.
 Print Assumptions C20_table_race_free.
 
+(* Message objects are serialized only under the handler mutex: in the regenerated table every
+   goroutine role that reaches DefaultHandler.send (application senders through Session.Send,
+   the inbound dispatch through handlers that answer and through the ResendRequest service's
+   SendBatch, the timer goroutines) does so with DefaultHandler.mu held exclusively on every call
+   path.  send is where ToBytes rewrites the message object, and stored message objects are shared
+   between senders and the resend path. *)
+Theorem C20_serialization_guarded :
+  guarded_by site_names site_funcs "simplefixgo.DefaultHandler.send" "DefaultHandler.mu" = true.
+Proof. vm_compute. reflexivity. Qed.
+Print Assumptions C20_serialization_guarded.
+
 (* What a shared lock buys in any execution: two accesses by different threads that both hold m
    are separated by the first thread's release of m and the second thread's later acquisition of
    m -- the synchronisation edge that orders them (no execution has them unordered). *)
